@@ -40,6 +40,18 @@ func init() {
 // edge of a non-blocking select that receives from a done channel.
 func notDoneGuard(gs []Guard) (ssa.Value, bool) {
 	for _, g := range gs {
+		// the test may be wrapped in a predicate: if t.finished() { return }
+		cond, truth := g.Cond, g.Truth
+		if u, ok := cond.(*ssa.UnOp); ok && u.Op == token.NOT {
+			cond, truth = u.X, !truth
+		}
+		if call, ok := cond.(*ssa.Call); ok {
+			if fn := staticCallee(&call.Call); fn != nil {
+				if pol, isPred := donePredicate(fn); isPred && truth != pol {
+					return call, true
+				}
+			}
+		}
 		x, y, op, ok := cmpGuard(g)
 		if !ok || op != token.NEQ {
 			continue
@@ -61,6 +73,107 @@ func notDoneGuard(gs []Guard) (ssa.Value, bool) {
 			continue
 		}
 		if isDoneChan(st.Chan) {
+			return sel, true
+		}
+	}
+	return nil, false
+}
+
+var donePredCache = map[*ssa.Function][2]bool{}
+
+// donePredicate: fn's whole body is one non-blocking receive on a done channel
+// and it returns a constant in each case; polarity = the value returned when
+// the channel IS closed (true for "finished()", false for "pending()").
+func donePredicate(fn *ssa.Function) (polarity bool, ok bool) {
+	if r, have := donePredCache[fn]; have {
+		return r[0], r[1]
+	}
+	res := [2]bool{false, false}
+	defer func() { donePredCache[fn] = res }()
+	if fn.Blocks == nil || fn.Signature.Results().Len() != 1 || countInstrs(fn) > 25 {
+		return false, false
+	}
+	nSel := 0
+	allInstrs(fn, func(i ssa.Instruction) {
+		switch x := i.(type) {
+		case *ssa.Select:
+			nSel++
+			if x.Blocking {
+				nSel += 10
+			}
+		case ssa.CallInstruction:
+			if !isDoneChanCall(x) {
+				nSel += 10 // does something else as well
+			}
+		case *ssa.Store, *ssa.MapUpdate, *ssa.Send:
+			nSel += 10
+		}
+	})
+	if nSel != 1 {
+		return false, false
+	}
+	var whenDone, whenNot []bool
+	consistent := true
+	allInstrs(fn, func(i ssa.Instruction) {
+		ret, isRet := i.(*ssa.Return)
+		if !isRet {
+			return
+		}
+		b, isC := constBool(ret.Results[0])
+		if !isC {
+			consistent = false
+			return
+		}
+		if _, notDone := notDoneGuardSelectOnly(guardsOf(i.Block())); notDone {
+			whenNot = append(whenNot, b)
+		} else {
+			whenDone = append(whenDone, b)
+		}
+	})
+	if !consistent || len(whenDone) == 0 || len(whenNot) == 0 {
+		return false, false
+	}
+	for _, b := range whenDone {
+		if b != whenDone[0] {
+			return false, false
+		}
+	}
+	for _, b := range whenNot {
+		if b == whenDone[0] {
+			return false, false
+		}
+	}
+	res = [2]bool{whenDone[0], true}
+	return whenDone[0], true
+}
+
+func isDoneChanCall(ci ssa.CallInstruction) bool {
+	if v, ok := ci.(ssa.Value); ok {
+		return isDoneChan(v)
+	}
+	return false
+}
+
+// notDoneGuardSelectOnly: the select form only (used to summarise predicates).
+func notDoneGuardSelectOnly(gs []Guard) (ssa.Value, bool) {
+	for _, g := range gs {
+		x, y, op, ok := cmpGuard(g)
+		if !ok || op != token.NEQ {
+			continue
+		}
+		ex, ok := x.(*ssa.Extract)
+		if !ok || ex.Index != 0 {
+			continue
+		}
+		sel, ok := ex.Tuple.(*ssa.Select)
+		if !ok || sel.Blocking {
+			continue
+		}
+		k, ok := constInt(y)
+		if !ok || int(k) >= len(sel.States) || k < 0 {
+			continue
+		}
+		if st := sel.States[k]; st.Dir == types.RecvOnly && isDoneChan(st.Chan) {
 			return sel, true
 		}
 	}
